@@ -113,6 +113,19 @@ def ioFloat : NumIO Float where
   ofIntW t i :=
     let d := floatOfFVal (.fin (decide (i < 0)) i.natAbs 1)
     some (fvalToBits t (floatFVal d))
+  convW src dst w :=
+    match src.kind with
+    | .float =>
+      let (eb, mb) := fmtBits src
+      let v := fvalOfBits eb mb w
+      match dst.kind with
+      | .float => fvalToBits dst v
+      | _ => match truncInt v with
+        | some i => ofInt dst i     -- out-of-range / NaN sources are undefined in C and never requested
+        | none => 0
+    | _ =>
+      let i := toInt src w
+      fvalToBits dst (.fin (decide (i < 0)) i.natAbs 1)
   ofInt i := Float.ofInt i
   sub a b := a - b
   mul a b := a * b
@@ -277,6 +290,19 @@ def handle (toks : List String) : String :=
     match parseGrid g with
     | none => "bad-op"
     | some g => "ok " ++ fmtGrid (clone g)
+  | "cloneas" :: k :: b :: g =>
+    match parseGrid g, parseKind k, b.toNat? with
+    | some g, some k, some b => "ok " ++ fmtGrid (cloneAs ioFloat g ⟨k, b⟩)
+    | _, _, _ => "bad-op"
+  | "storeas" :: sk :: sb :: dk :: db :: data :: ops =>
+    match parseKind sk, sb.toNat?, parseKind dk, db.toNat?, parseMat? data, allSome (ops.map parseSOp) with
+    | some sk, some sb, some dk, some db, some rows, some ops =>
+      let s0 : Store := [rows]
+      let a : Handle := ⟨0⟩
+      let (s1, b) := Store.cloneMap s0 a (astypeWord ioFloat ⟨sk, sb⟩ ⟨dk, db⟩)
+      let (s, a', b') := runStore s1 a b ops
+      s!"{fmtMat (s.read a')} {fmtMat (s.read b')}"
+    | _, _, _, _, _, _ => "bad-op"
   | "clip" :: x0 :: y0 :: x1 :: y1 :: g =>
     match parseGrid g, floatTok? x0, floatTok? y0, floatTok? x1, floatTok? y1 with
     | some g, some x0, some y0, some x1, some y1 => replyGrid (clip ioFloat g x0 y0 x1 y1)
